@@ -417,7 +417,7 @@ func genProject(r *rng.R, nPerturb int) (pProject, []string) {
 	}
 	nc := 1 + r.Intn(3)
 	for ci := 0; ci < nc; ci++ {
-		c := pController{Name: fmt.Sprintf("Ctl%d", ci), Pkg: "ctl", File: rng.Pick(r, []string{"a.go", "b.go"})}
+		c := pController{Name: fmt.Sprintf("Ctl%d", ci), Pkg: "ctl", File: rng.Pick(r, []string{"a.go", "b.go"}), Grouped: r.Chance(1, 5)}
 		if r.Chance(1, 3) {
 			c.Free = []string{"Controller docs"}
 		}
@@ -447,7 +447,24 @@ func genProject(r *rng.R, nPerturb int) (pProject, []string) {
 		p.Controllers = append(p.Controllers, c)
 	}
 	p.Types = append(p.Types, extraTypes...)
+	p.Config.EnumValidator = r.Chance(1, 3)
 	p.GroupParams = r.Chance(1, 3)
+	if p.GroupParams {
+		// (from, to, cursor string, limit int): three names in one declaration followed by another parameter
+		ci := r.Intn(len(p.Controllers))
+		gm := pMethod{Name: fmt.Sprintf("Grouped%d", ci), File: p.Controllers[ci].File, Results: []string{"error"},
+			Annots: []pAnnot{{Name: "Method", Value: "GET"}, {Name: "Route", Value: fmt.Sprintf("/grouped%d", ci)}}}
+		for _, n := range []string{"from", "to", "cursor"} {
+			gm.Annots = append(gm.Annots, pAnnot{Name: "Query", Value: n})
+			gm.Params = append(gm.Params, pParam{Name: n, Type: "string"})
+		}
+		gm.Annots = append(gm.Annots, pAnnot{Name: "Query", Value: "limit"}, pAnnot{Name: "Header", Value: "trace"})
+		gm.Params = append(gm.Params, pParam{Name: "limit", Type: "int"}, pParam{Name: "trace", Type: "int"})
+		if p.Config.Enforce {
+			gm.Annots = append(gm.Annots, g.security()...)
+		}
+		p.Controllers[ci].Methods = append(p.Controllers[ci].Methods, gm)
+	}
 	applied := []string{}
 	// a custom error type is as good as `error`
 	for ci := range p.Controllers {
